@@ -75,4 +75,71 @@ theorem noCycleFrom_sound (refs : Nat → List Nat) : ∀ (fuel : Nat) (stack : 
         have hd := h b hb
         exact ih (c :: stack) b hd t (List.mem_cons_of_mem _ ht) hrest
 
+/-! ### Completeness of the recursion check: a class is rejected only if a recursion can be reached from it -/
+
+/-- Pigeonhole: a duplicate-free list of numbers below `N` has at most `N` elements. -/
+theorem nodup_bounded_length : ∀ (N : Nat) (l : List Nat), l.Nodup → (∀ x ∈ l, x < N) → l.length ≤ N := by
+  intro N
+  induction N with
+  | zero =>
+    intro l _ hb
+    match l with
+    | [] => simp
+    | x :: _ => exact absurd (hb x List.mem_cons_self) (by omega)
+  | succ N ih =>
+    intro l hn hb
+    have hn' := hn.erase N
+    have hb' : ∀ x ∈ l.erase N, x < N := by
+      intro x hx
+      have := (hn.mem_erase_iff).mp hx
+      have := hb x this.2
+      omega
+    have := ih (l.erase N) hn' hb'
+    by_cases hm : N ∈ l
+    · rw [List.length_erase_of_mem hm] at this; omega
+    · rw [List.erase_of_not_mem hm] at this; omega
+
+/-- If the walk rejects class `c` - all classes being numbered below `N`, the stack free of repetitions and the fuel
+    sufficient for the classes not yet on the stack - then `c` is already on the stack, or `c` leads back to itself or
+    to a class on the stack, or `c` leads to a class that lies on a cycle. With the empty stack the compiler starts
+    with: a class is reported as recursive only if a cycle of references can be reached from it. -/
+theorem noCycleFrom_complete (refs : Nat → List Nat) (N : Nat) (hrefs : ∀ a, ∀ b ∈ refs a, b < N) :
+    ∀ (fuel : Nat) (stack : List Nat) (c : Nat), c < N → stack.Nodup → (∀ x ∈ stack, x < N) → N + 1 ≤ fuel + stack.length →
+      noCycleFrom refs fuel stack c = false →
+      c ∈ stack ∨ (∃ t ∈ c :: stack, Path refs c t) ∨ (∃ t, Path refs c t ∧ Path refs t t) := by
+  intro fuel
+  induction fuel with
+  | zero =>
+    intro stack c _ hn hb hf _
+    have := nodup_bounded_length N stack hn hb
+    omega
+  | succ fuel ih =>
+    intro stack c hc hn hb hf h
+    simp only [noCycleFrom] at h
+    by_cases hs : stack.contains c = true
+    · left; simpa using hs
+    · rw [if_neg hs] at h
+      have hcs : c ∉ stack := by simpa using hs
+      rw [List.all_eq_false] at h
+      obtain ⟨d, hd, hdf⟩ := h
+      have hdf' : noCycleFrom refs fuel (c :: stack) d = false := by simpa using hdf
+      have := ih (c :: stack) d (hrefs c d hd) (List.nodup_cons.mpr ⟨hcs, hn⟩)
+        (by intro x hx; rcases List.mem_cons.mp hx with rfl | hx; exact hc; exact hb x hx)
+        (by simp only [List.length_cons]; omega) hdf'
+      right
+      rcases this with hmem | ⟨t, ht, hp⟩ | ⟨t, hp, hcyc⟩
+      · exact Or.inl ⟨d, hmem, Path.step hd⟩
+      · rcases List.mem_cons.mp ht with rfl | ht'
+        · exact Or.inr ⟨t, Path.step hd, hp⟩
+        · exact Or.inl ⟨t, ht', Path.cons hd hp⟩
+      · exact Or.inr ⟨t, Path.cons hd hp, hcyc⟩
+
+/-- Top level: rejection of `c` with the empty stack and `N + 1` units of fuel exhibits a reachable cycle. -/
+theorem rejected_has_cycle (refs : Nat → List Nat) (N : Nat) (hrefs : ∀ a, ∀ b ∈ refs a, b < N) (c : Nat) (hc : c < N)
+    (h : noCycleFrom refs (N + 1) [] c = false) : Path refs c c ∨ ∃ t, Path refs c t ∧ Path refs t t := by
+  rcases noCycleFrom_complete refs N hrefs (N + 1) [] c hc List.nodup_nil (by simp) (by simp) h with h | ⟨t, ht, hp⟩ | h
+  · simp at h
+  · simp only [List.mem_singleton] at ht; subst ht; exact Or.inl hp
+  · exact Or.inr h
+
 end Grc.SR
